@@ -51,6 +51,7 @@ struct Data {
 struct Slot {
   std::unique_ptr<MIP_Problem> p;
   Data d;
+  bool unsat = false;   // generator bookkeeping: an observer said unfeasible (the status is sticky)
   bool live() const { return (bool)p; }
 };
 
@@ -66,6 +67,7 @@ static MIP_Problem::Control_Parameter_Value pricing_of(unsigned k) {
 }
 
 static long g_ok_calls = 0;
+static bool g_last_unsat = false;     // the last observation said "no feasible point"
 
 // One observation of `q` (kind 0 solve, 1 sat, 2 fpoint, 3 opoint, 4 oval); returns false on timeout.
 static bool observe_one(const char* tag, int s, const MIP_Problem& q, dimension_type n, int kind) {
@@ -73,12 +75,13 @@ static bool observe_one(const char* tag, int s, const MIP_Problem& q, dimension_
   const char* kn = kind == 0 ? "solve" : kind == 1 ? "sat" : kind == 2 ? "fpoint" : kind == 3 ? "opoint" : "oval";
   o << kn;
   bool timed_out = false;
+  g_last_unsat = false;
   arm();
   try {
     switch (kind) {
     case 0: {
       MIP_Problem_Status st = q.solve();
-      if (st == UNFEASIBLE_MIP_PROBLEM) o << " unfeasible";
+      if (st == UNFEASIBLE_MIP_PROBLEM) { o << " unfeasible"; g_last_unsat = true; }
       else if (st == UNBOUNDED_MIP_PROBLEM) {
         o << " unbounded fp";
         try { const Generator& g = q.feasible_point(); put_pt(o, g, n); }
@@ -93,7 +96,13 @@ static bool observe_one(const char* tag, int s, const MIP_Problem& q, dimension_
         } catch (const std::domain_error&) { o << " none"; }
       }
       break; }
-    case 1: o << " " << (q.is_satisfiable() ? 1 : 0); break;
+    case 1:
+      if (q.is_satisfiable()) {
+        o << " 1 fp";   // the witness of the positive answer
+        try { const Generator& g = q.feasible_point(); put_pt(o, g, n); }
+        catch (const std::domain_error&) { o << " none"; }
+      } else { o << " 0"; g_last_unsat = true; }
+      break;
     case 2:
       try { const Generator& g = q.feasible_point(); put_pt(o, g, n); }
       catch (const std::domain_error&) { o << " none"; }
@@ -234,6 +243,7 @@ struct Hist {
   void do_new(int s, dimension_type n) {
     OS o; o << "new " << s << " " << n; J.line(o.str());
     slot[s].p.reset(new MIP_Problem(n)); slot[s].d = Data(); slot[s].d.dim = n; slot[s].d.boxed.assign(n, false);
+    slot[s].unsat = false;
   }
   void do_newc(int s, dimension_type n) {
     Data d; d.dim = n; d.boxed.assign(n, false);
@@ -253,7 +263,7 @@ struct Hist {
     OS o; o << "copy " << dst << " " << src; J.line(o.str());
     if (slot[dst].live() && r.chance(1, 2)) *slot[dst].p = *slot[src].p;
     else slot[dst].p.reset(new MIP_Problem(*slot[src].p));
-    slot[dst].d = slot[src].d;
+    slot[dst].d = slot[src].d; slot[dst].unsat = slot[src].unsat;
   }
   void drop(int s) { OS o; o << "drop " << s; J.line(o.str()); slot[s].p.reset(); }
 
@@ -263,6 +273,7 @@ struct Hist {
     Slot& S = slot[s];
     bool okc = observe_one("obs", s, *S.p, S.d.dim, kind);
     if (!okc) { drop(s); return; }
+    if (g_last_unsat) S.unsat = true;
     MIP_Problem f(S.d.dim);
     build_fresh(f, S.d, r.below(3));
     observe_one("fresh", s, f, S.d.dim, kind);
@@ -281,6 +292,8 @@ struct Hist {
   void mutate() {
     int s = pick_live(); if (s < 0) return;
     Slot& S = slot[s];
+    // an unfeasible problem stays unfeasible whatever is added: mostly start the slot afresh
+    if (S.unsat && r.chance(3, 5)) { do_new(s, 1 + r.below((unsigned)maxdim)); return; }
     unsigned k = r.below(100);
     if (k < 34) { if (S.d.cs.size() < 9) do_add_con(s, gen_con(S.d)); }
     else if (k < 44) {
